@@ -252,6 +252,32 @@ def elim_case_kaykobad(rng) -> Dict[str, Any]:
             "elim": elim, "refine_hint": refine}
 
 
+def elim_case_coincide(rng) -> Dict[str, Any]:
+    """A chain whose last link bounds the eliminated variable from the useless side, with the term that a
+    wrong-direction substitution would produce already present in the context (as a bound on the kept variable)."""
+    c, d, u = float(rng.randint(-2, 3)), float(rng.randint(-2, 2)), float(rng.randint(0, 4))
+    m = rng.choice([1.0, -1.0])          # mirror the eliminated variables
+    f = float(rng.choice([1, 1, 2]))     # scale the chain rows
+    x, y, z = "a", "b", "c"
+    term = T({x: 1.0, y: -m}, c)
+    ctx = [T({z: m * f, y: -m * f}, d * f), T({z: m}, u)]
+    if rng.random() < 0.5:
+        ctx.append(T({x: 1.0}, c - d + u))
+    else:
+        # ... or the wrong-side variable pinned to a sliver: the wrong-direction substitution is then off by its
+        # width, a few times the tolerance of the numerical reading
+        k = c - d + u
+        w = rng.choice([2.0, 3.0, 5.0, 8.0]) * 1e-4 * (1 + abs(k))
+        ctx.append(T({z: -m}, -(u - w)))
+    if rng.random() < 0.4:
+        ctx.append(T({x: -1.0}, float(rng.randint(0, 5))))
+    if rng.random() < 0.3:
+        ctx.append(rterm(rng, [x, "d"], 2, "int"))
+    rng.shuffle(ctx)
+    terms = [term] + ([T({x: 1.0, "d": 1.0}, float(rng.randint(0, 5)))] if rng.random() < 0.3 else [])
+    return {"terms": terms, "ctx": ctx, "elim": [y, z], "refine_hint": True}
+
+
 ELIM_FAMILIES = [
     ("random", elim_case_random, 4),
     ("boxed", elim_case_boxed, 4),
@@ -259,6 +285,7 @@ ELIM_FAMILIES = [
     ("chain", elim_case_chain, 3),
     ("degenerate", elim_case_degenerate, 2),
     ("kaykobad", elim_case_kaykobad, 3),
+    ("coincide", elim_case_coincide, 1),
 ]
 
 
